@@ -69,37 +69,64 @@ THEOREMS = [
 ]
 TRUSTED_BASE = [
     'Python semantics transcribed by hand: shared-iterator `filter`, exception replacement inside `except`/`finally` '
-    'blocks, stability of `sorted`',
+    'blocks, stability of `sorted` and that it uses `<` only, `getattr` with a default, keyword binding of '
+    '`attach(point, cb, priority=p, **conf)`',
     'the visit markers come from a HookMap subclass installed through Application.request_class (its `run` journals and '
     'then calls the real `run`)',
+    'the effective configuration of a request is read off the real request (`request.config` as the dispatcher merged '
+    'it): merging config levels is not part of this property',
 ]
 ASSUMPTIONS = [
     'hooks have a fixed outcome (return / raise HTTPError / HTTPRedirect / InternalRedirect / Exception) and do not '
     'mutate the hook list they are in; KeyboardInterrupt/SystemExit excluded (as in the statement)',
-    'cherrypy.log and engine.publish listeners do not raise',
+    'cherrypy.log and cherrypy.log.access do not raise; engine listeners other than the generated failing '
+    '`after_request` listener do not raise',
     'the WSGI server calls close() (the model also covers 0 and repeated calls)',
+    'priorities are None, bool, int, float (no NaN / infinity) or str; where the documentation gives a value no '
+    'meaning as a priority (bool, str, an attribute that is None) or as a fail-safe flag (\'\', \'False\', ...) the '
+    'oracle makes no demand (the model still pins what the code does with it)',
 ]
 LEVEL = 'proof'
-TECHNIQUE = ('Lean 4 proof by induction over arbitrary hook lists / fault plans on a transcription of HookMap.run_hooks, '
-             'Request.run/respond/handle_error/close and the WSGI layer; model tied to the code by a differential '
-             'journal comparison on generated fault plans')
+TECHNIQUE = ('Lean 4 proof by induction over arbitrary hook lists / fault plans / configurations on a transcription of '
+             'HookMap.run_hooks, Request.run/respond/handle_error/close, the WSGI layer and of Hook.__init__ / HookMap.attach / '
+             'Toolbox / Tool._setup and its overrides / the namespace order; models tied to the code by differential '
+             'comparison (journal, request.hooks, toolmaps, sorted order) on generated fault plans and declarations')
 LEVEL_TEXT = ('Proved in Lean for every hook list (any length, priorities, fail-safe bits, outcomes incl. second failures '
               'inside the fail-safe continuation): the hooks called at a point are exactly sorted[:k+1] + failsafe(sorted[k+1:]) '
-              'for k the first failure, each once, in stable priority order, and the last raised exception propagates. '
+              'for k the first failure, each once, in stable priority order, and the last raised exception propagates; '
+              'sorted() on Hook.__lt__ for numeric priorities of any sign / size / kind (bool, int, float) is the stable '
+              'ascending sort and commutes with the natural-number coding the pipeline model uses, and raises TypeError '
+              'exactly for >= 2 hooks of mixed kinds. '
               'Proved for every fault plan (any pages, redirect chains, handler outcomes, stream consumed / abandoned, any '
               'number of close() calls): each Request object visits on_end_resource exactly once and on_end_request exactly '
               'once (at the first close(), never later; never when the server does not close), and its visit sequence is '
-              'accepted by the documented-order automaton. Correspondence with the real pipeline is checked on generated '
-              'and exhaustively enumerated small fault plans each run.')
-LEVEL_NOTE = ('Trusted: Lean kernel (axioms propext, Classical.choice, Quot.sound only); the hand model '
-              'lean/CpModel/{Hooks,Pipeline,Wsgi}.lean as validated by the differential run; the harness. Hooks with side '
-              'effects on the hook list are out of scope.')
+              'accepted by the documented-order automaton. '
+              'Proved for every configuration / toolbox / set of callable attributes: a hook gets the declared priority and '
+              'fail-safe flag (explicit argument or config entry, also a falsy one like 0, > attribute of the callable > '
+              'Tool(priority=) > Hook default), every enabled Tool / HandlerTool / CachingTool contributes exactly one hook '
+              'at its point, ErrorTool none, a tool that is off none, hooks.* entries come after the class-level hooks and '
+              'before every tool hook, a request\'s HookMap shares no list with the class-level one; instantiated for '
+              'the default toolbox table regenerated from cherrypy.tools. '
+              'Correspondence with the real code is checked on generated and exhaustively enumerated small fault plans '
+              'and on declarations through every channel x boundary values each run. '
+              'Oracle only (real runs, no model): request.throw_errors, request.throws naming the probe exception, '
+              'request.error_response = None, a failing after_request listener, a HandlerTool that handles the request, '
+              'a malformed toolbox entry.')
+LEVEL_NOTE = ('Trusted: Lean kernel (axioms propext, Classical.choice, Quot.sound only); the hand models '
+              'lean/CpModel/{Hooks,Pipeline,Wsgi,HookAttach}.lean as validated by the differential runs; the harness. Hooks '
+              'with side effects on the hook list are out of scope.')
 RULE = ('fault plans: 1-3 pages, 0-5 hooks per point (priorities {10,50,50,90}, fail-safe bit, outcome ok/Exception/'
         'HTTPError/HTTPRedirect/InternalRedirect), handler outcome x return shape x status, dispatcher / namespace / body / '
         'error_response / error_page sites, stream bit, GET/HEAD/POST, partial reads, 0-3 close() calls; half the plans '
         'concentrate 3-5 hooks on one point; plus an exhaustive enumeration of all hook lists of <=2 (quick) / <=3 '
-        '(thorough) hooks at one point x 8 points x handler outcomes. Non-trivial = at least one hook was called; '
-        'distinct = distinct plan line')
+        '(thorough) hooks at one point x 8 points x handler outcomes. Declaration plans: 2-7 hooks per page declared '
+        'through Hook objects / bare callables / dotted names in hooks.*, Tool, HandlerTool, ErrorTool, CachingTool- and '
+        'SessionTool-subclasses in three toolboxes, class-level hooks; priority / fail-safe written to every slot (Hook '
+        'argument, callable attribute, Tool(priority=), <box>.<tool>.priority|failsafe at global / root / app / handler / '
+        'path level, decorator) with values from {0, 0.0, -0.0, -1, -50, 1, 0.25, 49..51 in quarter steps, 99..101, 1e9, '
+        '+-2^70, 2.0^60, True, False, None, \'10\', \'5\', \'\'} / {True, False, 1, 0, None, \'\', \'False\'}; a targeted '
+        'enumeration of channel x slot x value among neighbouring reference hooks attached before and after. '
+        'Non-trivial = at least one hook was called; distinct = distinct plan')
 
 SEQ_RE = re.compile(r'^0?1?2?3{0,2}4(67?)?5?$')
 
